@@ -109,8 +109,19 @@ func vfCheckTableB(hmB *HashMapB, ref *vfRef, pkHash pocutil.Hash, where string)
 	bl := ref.bl
 	vol := uint64(1) << uint(bl)
 	solv := ref.solvable()
+	var prevX, prevXp, prevXc, prevXpc []byte
 	for z := uint64(0); z < vol; z++ {
 		xb, xpb, err := hmB.Get(pocutil.PoCValue(z))
+		// an entry handed out earlier (e.g. a proof the miner still holds) must not change when another is looked up
+		if prevX != nil && (!bytes.Equal(prevX, prevXc) || !bytes.Equal(prevXp, prevXpc)) {
+			return vlib.Failf("table:served-entry-changed-by-later-lookup", "%s: the entry returned for prefix %d changed when prefix %d was looked up", where, z-1, z)
+		}
+		if err == nil {
+			prevX, prevXp = xb, xpb
+			prevXc, prevXpc = append([]byte(nil), xb...), append([]byte(nil), xpb...)
+		} else {
+			prevX = nil
+		}
 		if err != nil {
 			if solv[z] {
 				return vlib.Failf("table:missing-proof", "%s: prefix %d: the construction yields a proof but the table cannot be read there: %v", where, z, err)
@@ -137,7 +148,35 @@ func vfCheckTableB(hmB *HashMapB, ref *vfRef, pkHash pocutil.Hash, where string)
 			return vlib.Failf("table:unexpected-entry", "%s: prefix %d holds (%d,%d) although the construction yields no proof there", where, z, x, xp)
 		}
 	}
-	return nil
+	// concurrent lookups (the keeper serves GetProof from a worker pool): every answer must still be the entry of
+	// its own prefix
+	var wg sync.WaitGroup
+	var cmu sync.Mutex
+	var cf *vlib.Failure
+	for g := 0; g < 4; g++ {
+		wg.Add(1)
+		go func(g int) {
+			defer wg.Done()
+			for i := 0; i < 200; i++ {
+				z := (uint64(g)*7919 + uint64(i)*104729) % vol
+				xb, xpb, err := hmB.Get(pocutil.PoCValue(z))
+				if err != nil {
+					continue
+				}
+				x, xp := vfLE(xb), vfLE(xpb)
+				if (x != 0 || xp != 0) && uint64(pocutil.F(pocutil.PoCValue(x), pocutil.PoCValue(xp), bl, pkHash)) != z {
+					cmu.Lock()
+					if cf == nil {
+						cf = vlib.Failf("table:concurrent-lookup-mixed-entries", "%s: concurrent lookup of prefix %d returned (%d,%d) which is not a proof for it", where, z, x, xp)
+					}
+					cmu.Unlock()
+					return
+				}
+			}
+		}(g)
+	}
+	wg.Wait()
+	return cf
 }
 
 // vfCheckMapA checks records [0,upto) of the map A file against the reference (sound and complete).
